@@ -27,7 +27,7 @@ ASSUMPTIONS = [
     "frequencies are compared exactly (count/n as Fraction against the decimal value of min_freq); with n <= 400 this agrees with the package's float comparisons",
     "a feature dropped by the discretizer (most frequent value rarer than min_freq) is not judged",
 ]
-BUDGET = {"quick": 3000, "thorough": 200000}
+BUDGET = {"quick": 6000, "thorough": 200000}
 DEADLINE_S = {"quick": 200, "thorough": 3300}
 CLASSES = (
     "Discretizer", "Discretizer", "QuantitativeDiscretizer", "QualitativeDiscretizer",
